@@ -68,22 +68,28 @@ CHECKS = {
    note=COMMON_NOTE + "Registry.lean (the spec side) is written from memory of the drafts/RFCs offline; vendor-specific entries are pinned to the pinned commit.",
    technique="Lean 4 proof (decide +kernel over generated tables, list lemmas) + exhaustive model/implementation/registry correspondence"),
  "C01": dict(
-   text="Lean theorem C01_create_digests: for every schema, file system, hash function and description, the tree the model of create serialises holds in its "
-        "authentication wrapper the declared hash of the to_cbor() bytes of the bstr-wrapped manifest of that same tree, and every digest reference to a present "
-        "severed member equals the declared hash of that member's to_cbor() bytes (invariant over the loop of update_severable_digests, then update_digest; no bound "
-        "on sizes or nesting); C01_supplied_ignored; C01_wrapped_header (the 23/24, 255/256, 65535/65536 header-width boundaries are ordinary cases); C01_span "
-        "(strict decoding gives back exactly the bytes); C01_hash_table (decide: SHAKE128->16, SHAKE256->32 over the re-extracted table). The byte-level predicate "
-        "Spec.checkRec (own strict CBOR reader, own digest table) is evaluated on every envelope the real tool creates; the step from the node-level theorem to that "
-        "predicate is not yet a theorem (partial).",
-   design="4 C01",
-   note=COMMON_NOTE + "Partial: node-level theorem + byte-level predicate evaluated on implementation output; cbor2 dumps/loads modelled as enc/dec on the plain subset.",
-   technique="Lean 4 proof (loop invariant over digest updates, for all hash functions) + byte-exact model/implementation correspondence + executable byte-level spec"),
+   text="Lean theorems. C01_create_digests (node level, any schema): the tree create serialises holds in its authentication wrapper the declared hash of the to_cbor() bytes of "
+        "the bstr-wrapped manifest of that same tree, and every digest reference to a present severed member equals the declared hash of that member's to_cbor() bytes (loop "
+        "invariant over update_severable_digests, then update_digest; any file system, hash function, description, nesting). C01_bytes (byte level, the schema extracted from the "
+        "running code): whatever create writes satisfies Spec.check1 - own strict CBOR reader, digest table by COSE identifier - provided the envelope, the authentication wrapper, "
+        "the digest and the manifest are encodable (lengths and integers below 2^64). It rests on the typing theorem Typing.fromObj_typed (node shape per schema class, for all "
+        "schemas, by induction over the nine mutually recursive from_obj functions), on C01_schema_paths (the digest paths of the extracted schema: kernel evaluation, found by "
+        "unification so that renumbering of classes does not disturb it), on shape preservation through both digest updates, and on dictionary-lookup lemmas for to_cbor of key-value "
+        "nodes (flattened payload maps have text keys only, integer keys pairwise different). C01_supplied_ignored; C01_wrapped_header (23/24, 255/256, 65535/65536 are ordinary "
+        "cases); C01_span; C01_hash_table and C01_hash_enum (decide: algorithm names, identifiers and SHAKE lengths are the registry's). The same predicate at every nesting level "
+        "(Spec.checkRec) is evaluated on every envelope the real tool creates.",
+   design="4 C01 and 8.4",
+   note=COMMON_NOTE + "Not a theorem: Spec.checkRec at nested levels of integrated dependencies (each level is an instance of C01_bytes for the child's own create; the composition is "
+        "evaluated, not proved); cbor2 dumps/loads modelled as enc/dec on the plain subset.",
+   technique="Lean 4 proof (typing theorem + loop invariant + byte-level theorem over the extracted schema, for all hash functions) + byte-exact model/implementation correspondence + executable byte-level spec"),
  "C02": dict(
    text="Decomposed. Lean: C02_vocabulary (every registered name has its registered integer in the running code's tables: kernel evaluation over the re-extracted schema), "
         "C02_wrap_members / C02_wrap_fields (bstr .cbor at exactly the members / tuple fields the CDDL prescribes, 40 + 14 rows checked by the kernel against the extracted class "
         "graph), C02_command_sequences_flat (command sequences group by two), and about the encoder for all inputs: C02_wrapped_once (one byte-string layer around the content's "
         "encoding), C02_envelope_is_enc + C02_shortest (the envelope is enc of one value, which the strict definite-length shortest-form reader accepts and returns), "
-        "C02_list_order, C02_flat_pairs (code1,arg1,code2,arg2,... in description order), C02_map_order (map pairs in description order, nothing sorted, dropped or duplicated). "
+        "C02_list_order, C02_flat_pairs (code1,arg1,code2,arg2,... in description order), C02_map_order (map pairs in description order, nothing sorted, dropped or duplicated); "
+        "C02_typed (typing theorem: every tree from_obj builds has, at every class, the node shape the schema prescribes - any schema, description, file system, hash) with its "
+        "corollaries C02_layer_present (exactly one byte-string layer at a bstr .cbor class) and C02_layer_absent_map / _tag (none at a map or tag class). "
         "Tie and decision: a reference encoder written from the CDDL by the verifier (harness/ref_encode.py, no suit_generator import) is compared byte-for-byte with the real tool "
         "and with the model on every generated description; the strict reader runs on the real tool's bytes. Partial: no theorem that the model's whole encoder equals the "
         "reference encoder; constructs outside the reference's scope (delegation chains, inline text) are excluded and counted.",
